@@ -5,11 +5,26 @@
 // them from generated scripts, request bodies come from a simulator-owned
 // io.Reader. Property C14 (clean and fault configurations).
 //
-// Determinism note: the Transport ranges over the req.Header / req.Trailer maps
-// (random order). The generated request field names are unique per (request,
-// key), values of one key are consecutive on the wire, and nothing else can
-// match them in the HPACK tables; the encoded length of a header block is then
-// independent of the map order, and so are the byte counts the scheduler sees.
+// Determinism notes.
+//   - The Transport ranges over the req.Header / req.Trailer maps (random order).
+//     The generated request field names are unique per (request, key), values of
+//     one key are consecutive on the wire, and nothing else can match them in the
+//     HPACK tables; the encoded length of a header block is then independent of
+//     the map order. Delivery split hints are computed from frame boundaries
+//     only (heScan), never from frame contents.
+//   - The Transport reads request bodies into sync.Pool buffers of varying
+//     length; the body reader never returns more than the guaranteed minimum.
+//   - Residual: Go's select chooses at random among ready channels inside the
+//     code under test (see check and the engine JSON).
+//
+// Environment knobs (debugging / sensitivity work only; registered jobs set none):
+//   VERIF_H2E2E_AVOID=late_trailers  do not combine request trailers with handlers
+//                                    that finish before reading the body (open
+//                                    finding: the server answers trailers for a
+//                                    stream it has reset with GOAWAY)
+//   VERIF_H2E2E_AVOID=-frame_cap     lift the cap on DATA frames per request
+//   VERIF_H2E2E_FRAMES=1             log every wire frame into the trace
+//   VERIF_H2E2E_DUMP=<file>          append every run's trace to <file>
 
 //go:build !(go1.27 && !http2legacy)
 
@@ -577,16 +592,16 @@ func heRespByte(idx int, off int64) byte {
 
 type heReqState struct {
 	// caller side
-	cStarted  bool
-	cDone     bool
-	startStep int
-	cancel    context.CancelFunc
-	canceled  bool
+	cStarted    bool
+	cDone       bool
+	startStep   int
+	cancel      context.CancelFunc
+	canceled    bool
 	closedEarly bool
-	gotResp   bool
-	cRead     int64
-	clog      []string
-	blog      []string
+	gotResp     bool
+	cRead       int64
+	clog        []string
+	blog        []string
 	// request body reader
 	bodyFault bool
 	// handler side
@@ -623,10 +638,10 @@ type heRun struct {
 	ledAB, ledBA heLedger
 
 	// select-race detection (see check): server frames not yet delivered
-	pendBA  []*heFrame
-	prevBA  int64
-	raced   bool
-	cEnded  map[uint32]bool // streams on which the client has written END_STREAM
+	pendBA []*heFrame
+	prevBA int64
+	raced  bool
+	cEnded map[uint32]bool // streams on which the client has written END_STREAM
 }
 
 // heLedger is the passive flow-control ledger of one direction.
@@ -636,7 +651,7 @@ type heLedger struct {
 	connUse int64
 	wu      map[uint32]int64
 	use     map[uint32]int64
-	maxFr   int64 // receiver's advertised max frame size
+	maxFr   int64          // receiver's advertised max frame size
 	hdrs    map[uint32]int // header blocks started by the sender of this direction, per stream
 	rstStep map[uint32]int // scheduler step at which the sender wrote RST_STREAM, per stream
 	lateTrl bool           // (c2s) trailers were written for a stream the peer had already reset
